@@ -637,7 +637,7 @@ impl<'a> Exec<'a> {
         if sh != (want_len, Some(want_len)) {
             return Err(fail("size_hint", format!("({}, Some({}))", want_len, want_len), format!("{:?}", sh)));
         }
-        if want_len <= FULL_DRAIN_LIMIT || step == 0 {
+        if want_len <= FULL_DRAIN_LIMIT || (step == 0 && want_len <= 5000) {
             let rest = catch(|| s.real.rest()).map_err(|p| fail("panic_state", "no panic".into(), format!("panic while draining a clone: {}", p)))?;
             let want: Vec<Item> = (m.lo..m.hi).map(Item::Some).collect();
             if rest != want {
@@ -651,7 +651,21 @@ impl<'a> Exec<'a> {
         } else {
             // thousands of remaining items: spot-check both ends and two interior positions per step
             // instead of draining everything (the full drain still happens at step 0 of every run)
-            for j in [0usize, want_len - 1, (step * 7919 + m.lo * 31) % want_len] {
+            let mut positions = vec![0usize, want_len - 1, (step * 7919 + m.lo * 31) % want_len];
+            if step == 0 {
+                // a fresh iterator over a huge enum: every index next to a power of two, both ends
+                for b in 1..usize::BITS {
+                    let p = 1usize << b;
+                    for j in [p - 1, p, p + 1] {
+                        if j < want_len {
+                            positions.push(j);
+                        }
+                    }
+                }
+                positions.push(want_len / 2);
+                positions.push(want_len - 2);
+            }
+            for j in positions {
                 let (a, b) = catch(|| s.real.probe(j)).map_err(|p| fail("panic_state", "no panic".into(), format!("panic while probing a clone: {}", p)))?;
                 let (wa, wb) = (Item::Some(m.lo + j), Item::Some(m.hi - 1 - j));
                 if a != wa {
